@@ -54,6 +54,14 @@ fn main() {
             std::fs::write(&out, js).expect("write --out");
             std::process::exit(if r.violations.is_empty() { 0 } else { 1 });
         }
+        "child-reader" => {
+            // runs one reader script in this (fresh) process; prints ok / err / panic:<msg>
+            vharness::checks::common::quiet_panics();
+            let variant = args.get(2).cloned().unwrap_or_else(|| usage());
+            let js: serde_json::Value = serde_json::from_str(args.get(3).map(|s| s.as_str()).unwrap_or("")).expect("script json");
+            let sc = vharness::readers::Script::from_json(&js).expect("script");
+            println!("{}", vharness::checks::c17::run_script_dyn(&variant, &sc));
+        }
         "replay" => {
             let id = args.get(2).cloned().unwrap_or_else(|| usage());
             let file = get("--file").unwrap_or_else(|| usage());
